@@ -1,4 +1,5 @@
 import Deltio.Lemmas.SubRun
+import Deltio.Lemmas.SysSub
 /-
   C01 — Fan-out without loss: every accepted message reaches every attached subscription.
   Subscription-local part: all turn sequences of the subscription's actor (= all schedules of any
@@ -105,5 +106,31 @@ example :
     let s := (SubState.init 10000000).exec ts
     s.backlog.map (·.id) = [3] ∧ s.out.msgs.map (·.msg.id) = [2] ∧ (ackedIn (SubState.init 10000000) ts).map (·.id) = [1] := by
   decide
+
+/-! ### System level -/
+
+/-- C01 (system level, no StreamingPull open): Publish returns one id per message and hands
+    exactly those messages — in order, with those ids — to every subscription attached to the topic
+    by one `post` turn each; every other subscription is untouched. -/
+theorem C01_fanout (sys : Sys) (raw : Bytes) (msgs : List (Bytes × List (Bytes × Bytes))) (n : Name) (t : TopicEnt)
+    (hp : parseTopicName raw = some n) (hf : sys.findTopic n = some t) (hs : sys.streams = [])
+    (hnd : (t.subs.map (·.2)).Nodup) :
+    let ms := mkMsgs t.tid t.nextMsg sys.pubSeq msgs 0
+    (sys.rpc (.publish raw msgs)).2 = .ids (ms.map (·.id)) ∧
+    (∀ sid', sid' ∉ t.subs.map (·.2) → (sys.rpc (.publish raw msgs)).1.stateOf sid' = sys.stateOf sid') ∧
+    (∀ sid ∈ t.subs.map (·.2), ∀ st, sys.stateOf sid = some st →
+        (sys.rpc (.publish raw msgs)).1.stateOf sid = some ((st.turn (.post ms)).1.turn (.expire sys.clock)).1) := by
+  intro ms
+  simp only [Sys.rpc, hp, hf]
+  have h := postAll_spec ms t.subs
+    ({ sys with topics := sys.topics.map (fun x => if x.tid == t.tid then { x with nextMsg := x.nextMsg + msgs.length } else x),
+                pubSeq := sys.pubSeq + 1 } : Sys) hs hnd
+  exact ⟨rfl, h.1, h.2.1⟩
+
+/-! non-vacuity (two subscriptions on one topic) -/
+example :
+    let s1 := (exSys.rpc (.publish exT [([1], [])])).1
+    (s1.stateOf 2).map (fun st => st.backlog.map (·.data)) = some [[1]] ∧
+    (s1.stateOf 3).map (fun st => st.backlog.map (·.data)) = some [[1]] := by decide
 
 end Deltio
